@@ -2,6 +2,8 @@
 
 package flap
 
+import "bytes"
+
 // Verification hooks: exported access to unexported internals for the correspondence
 // harness in /verif.  Compiled only with -tags verif; adds code, changes none.
 
@@ -55,3 +57,167 @@ func VerifTHParams(tripLength Days, flightsInTrip uint64, flightInterval Days, a
 }
 
 func VerifDaysBetween(a, b EpochTime) Days { return daysBetween(a, b) }
+
+// ---- Traveller / Transactions / Promises ----
+
+func (self *Traveller) VerifTripHistory() *TripHistory { return &self.tripHistory }
+func (self *Traveller) VerifPassport() Passport        { return self.passport }
+func (self *Traveller) VerifSetPassport(p Passport)    { self.passport = p }
+func (self *Traveller) VerifVersion() uint8            { return self.version }
+func (self *Traveller) VerifSetVersion(v uint8)        { self.version = v }
+func (self *Traveller) VerifTransact(amount Kilometres, now EpochTime, tt TransactionType) {
+	self.transact(amount, now, tt)
+}
+func (self *Traveller) VerifKeep() bool { return self.keep() }
+func (self *Traveller) VerifSubmitFlight(f *Flight, now EpochTime, taxi Kilometres, debit bool) (Kilometres, Kilometres, error) {
+	return self.submitFlight(f, now, taxi, debit)
+}
+
+func (self *Transactions) VerifEntries() []Transaction {
+	out := make([]Transaction, MaxTransactions)
+	copy(out, self.entries[:])
+	return out
+}
+func (self *Transactions) VerifSetEntry(i int, t Transaction) { self.entries[i] = t }
+
+func (self *Promises) VerifEntries() []Promise {
+	out := make([]Promise, MaxPromises)
+	copy(out, self.entries[:])
+	return out
+}
+func (self *Promises) VerifSetEntry(i int, p Promise) { self.entries[i] = p }
+func (self *Promises) VerifMatch(p Promise) (EpochTime, error) { return self.match(p) }
+func (self *Promises) VerifKeep(ts, te EpochTime, d Kilometres) (Promise, error) {
+	return self.keep(ts, te, d)
+}
+
+func (self *Proposal) VerifEntries() []Promise { return self.Promises.VerifEntries() }
+func (self *Proposal) VerifVersion() uint64    { return uint64(self.version) }
+func (self *Proposal) VerifSetVersion(v uint64) { self.version = predictVersion(v) }
+
+func (self *Passport) VerifKey() string { k, _ := self.generateKey(); return k }
+
+// VerifPredictor is the exported shape of the unexported predictor interface, for scripted predictors.
+type VerifPredictor interface {
+	Predict(Kilometres, int64) (int64, error)
+	Backfilled(int64, int64) (Kilometres, error)
+	Version() uint64
+}
+
+type verifPredAdapter struct{ p VerifPredictor }
+
+func (a verifPredAdapter) add(epochDays, Kilometres) {}
+func (a verifPredAdapter) predict(d Kilometres, s epochDays) (epochDays, error) {
+	r, err := a.p.Predict(d, int64(s))
+	return epochDays(r), err
+}
+func (a verifPredAdapter) version() predictVersion { return predictVersion(a.p.Version()) }
+func (a verifPredAdapter) backfilled(s, e epochDays) (Kilometres, error) {
+	return a.p.Backfilled(int64(s), int64(e))
+}
+func (a verifPredAdapter) state() ([]float64, []float64, error) { return nil, nil, nil }
+func (a verifPredAdapter) To(*bytes.Buffer) error                { return nil }
+func (a verifPredAdapter) From(*bytes.Buffer) error              { return nil }
+
+// VerifPropose / VerifMake drive Promises.propose / make with a scripted predictor.
+func (self *Promises) VerifPropose(ts, te EpochTime, distance, travelled Kilometres, now EpochTime, p VerifPredictor, maxStack int8) (*Proposal, error) {
+	return self.propose(ts, te, distance, travelled, now, verifPredAdapter{p}, StackIndex(maxStack))
+}
+func (self *Promises) VerifMake(pp *Proposal, p VerifPredictor) error {
+	return self.make(pp, verifPredAdapter{p})
+}
+
+// ---- predictors ----
+
+// VerifPredState is a plain copy of a predictor's state.
+type VerifPredState struct {
+	Kind       int // 0 none, 1 linear, 2 polynomial
+	WindowSize int
+	MaxYs      int
+	Ys         []float64
+	Window     []float64
+	M, C       float64
+	Pv         uint64
+	Consts     []float64
+	Degree     int
+}
+
+func verifSmooth(s *SmoothYs, st *VerifPredState) {
+	st.WindowSize, st.MaxYs = s.windowSize, s.maxYs
+	st.Ys = append([]float64{}, s.ys...)
+	st.Window = append([]float64{}, s.window...)
+}
+
+func verifPredState(p predictor) VerifPredState {
+	var st VerifPredState
+	switch v := p.(type) {
+	case *bestFit:
+		if v == nil {
+			return st
+		}
+		st.Kind = 1
+		verifSmooth(&v.SmoothYs, &st)
+		st.M, st.C, st.Pv = v.m, v.c, uint64(v.pv)
+	case *polyBestFit:
+		if v == nil {
+			return st
+		}
+		st.Kind = 2
+		verifSmooth(&v.SmoothYs, &st)
+		st.Pv, st.Degree = uint64(v.pv), v.degree
+		st.Consts = append([]float64{}, v.consts...)
+	}
+	return st
+}
+
+// VerifPred wraps a stand-alone predictor (for C11 scripts).
+type VerifPred struct{ p predictor }
+
+func VerifNewBestFit(cfg PromisesConfig) (*VerifPred, error) {
+	b, err := newBestFit(cfg)
+	if err != nil {
+		return nil, err
+	}
+	return &VerifPred{b}, nil
+}
+func VerifNewPolyBestFit(cfg PromisesConfig) (*VerifPred, error) {
+	b, err := newPolyBestFit(cfg)
+	if err != nil {
+		return nil, err
+	}
+	return &VerifPred{b}, nil
+}
+func (v *VerifPred) Add(day int64, y Kilometres) { v.p.add(epochDays(day), y) }
+func (v *VerifPred) Predict(d Kilometres, start int64) (int64, error) {
+	r, err := v.p.predict(d, epochDays(start))
+	return int64(r), err
+}
+func (v *VerifPred) Backfilled(s, e int64) (Kilometres, error) {
+	return v.p.backfilled(epochDays(s), epochDays(e))
+}
+func (v *VerifPred) Version() uint64                { return uint64(v.p.version()) }
+func (v *VerifPred) State() VerifPredState          { return verifPredState(v.p) }
+func (v *VerifPred) To(b *bytes.Buffer) error       { return v.p.To(b) }
+func (v *VerifPred) From(b *bytes.Buffer) error     { return v.p.From(b) }
+func (v *VerifPred) Report() ([]float64, []float64, error) { return v.p.state() }
+
+// ---- Administrator ----
+
+// VerifPCState is a plain copy of the promises-correction state.
+type VerifPCState struct {
+	BacSm, CdSm                                   VerifPredState // only the SmoothYs part is used
+	BalanceAtClearance, ClearedDistance, BacPerKm Kilometres
+}
+
+func (self *Administrator) VerifPredictor() VerifPredState { return verifPredState(self.predictor) }
+func (self *Administrator) VerifValidPredictor() bool       { return self.validPredictor() }
+func (self *Administrator) VerifPC() VerifPCState {
+	var st VerifPCState
+	verifSmooth(&self.pc.state.bacSmoothed, &st.BacSm)
+	verifSmooth(&self.pc.state.cdSmoothed, &st.CdSm)
+	st.BalanceAtClearance = self.pc.state.balanceAtClearance
+	st.ClearedDistance = self.pc.state.clearedDistance
+	st.BacPerKm = self.pc.state.bacPerKm
+	return st
+}
+func (self *Administrator) VerifTotalGrounded() uint64 { return self.bs.totalGrounded }
